@@ -5,6 +5,6 @@ out="$1"; shift
 for m in "$@"; do
   p=${m%/*}; x=${m#*/}
   echo "== $m" >> "$out"
-  timeout 1500 /verif/tools/try_mutant.sh /tmp/wt/$p/_mutants/$x/patch.diff ${MUT_PROP:-$p} ${MUT_TIER:-quick} >> "$out" 2>&1
+  timeout 1500 /verif/tools/try_mutant.sh ${WT_BASE:-/tmp/wt}/$p/_mutants/$x/patch.diff ${MUT_PROP:-$p} ${MUT_TIER:-quick} >> "$out" 2>&1
 done
 echo "ROUND-DONE" >> "$out"
